@@ -35,3 +35,31 @@ SCALAR(normalizedZToDepth, w_fr_nz2d(p, o & 1, z), w_fr_nz2d_exc(p, o & 1, z), I
 SCALAR(screenRadius, w_fr_sr(p, o & 1, (void*)pt, r), w_fr_sr_exc(p, o & 1, (void*)pt, r), INA(f32, pt, 3); IN(f32, r);)
 SCALAR(worldRadius, w_fr_wr(p, o & 1, (void*)pt, r), w_fr_wr_exc(p, o & 1, (void*)pt, r), INA(f32, pt, 3); IN(f32, r);)
 SCALAR(aspect, w_fr_aspect(p, o & 1), w_fr_aspect_exc(p, o & 1), )
+SCALAR(ZToDepth, w_fr_z2d(p, o & 1, z, zmin, zmax), w_fr_z2d_exc(p, o & 1, z, zmin, zmax), IN(i64, z); IN(i64, zmin); IN(i64, zmax); ASSUME(zmax < 0x7fffffffffffffffL);)
+HARNESS(h_fr_ZToDepth_zero_range)
+{   /* the documented reason: zmax == zmin is rejected by the checked form (int zdiff == 0), and only then at this level */
+    INA(f32, p, 6); IN(u8, o); IN(i64, z); IN(i64, zmin); IN(i64, zmax); ASSUME(zmax < 0x7fffffffffffffffL);
+    __verif_exc = 0; (void)w_fr_z2d_exc(p, o & 1, z, zmin, zmax); int ex = __verif_exc; __verif_exc = 0;
+    if ((int)(zmax - zmin) == 0) CHECK(ex == DOM, "ZToDepthExc throws std::domain_error when the z range is empty");
+    END;
+}
+HARNESS(h_fr_DepthToZ)
+{
+    INA(f32, p, 6); IN(u8, o); IN(f32, depth); IN(i64, zmin); IN(i64, zmax);
+    i64 a = w_fr_d2z(p, o & 1, depth, zmin, zmax);
+    __verif_exc = 0; i64 b = w_fr_d2z_exc(p, o & 1, depth, zmin, zmax); int ex = __verif_exc; __verif_exc = 0;
+    CHECK(ex == 0 || ex == DOM, "DepthToZExc throws std::domain_error only");
+    if (!ex) CHECK(a == b, "DepthToZExc == DepthToZ whenever it returns");
+    END;
+}
+HARNESS(h_fr_setfov)
+{
+    INA(f32, p, 6); IN(u8, o); INA(f32, a, 5);
+    f32 x[7], y[7]; for (int i = 0; i < 7; i++) { x[i] = 7; y[i] = 7; }
+    w_fr_setfov(p, o & 1, a, x);
+    __verif_exc = 0; w_fr_setfov_exc(p, o & 1, a, y); int ex = __verif_exc; __verif_exc = 0;
+    CHECK(ex == 0 || ex == DOM, "setExc throws std::domain_error only");
+    CHECK((ex != 0) == (a[2] != 0 && a[3] != 0), "setExc throws exactly when both fields of view are non-zero (the documented reason)");
+    if (!ex) for (int i = 0; i < 7; i++) CHECK(same_f32(x[i], y[i]), "setExc leaves exactly the frustum set() leaves whenever it returns");
+    END;
+}
